@@ -258,6 +258,9 @@ partial def loop (h : IO.FS.Stream) (out : IO.FS.Stream) : IO Unit := do
   else if line.startsWith "I " then
     out.putStrLn (verdictI line)
     loop h out
+  else if line.startsWith "S " then
+    out.putStrLn (verdictS line)
+    loop h out
   else if line.startsWith "X " then
     out.putStrLn (verdictX line)
     loop h out
